@@ -82,6 +82,24 @@ func checkC02(ci any, info *CaseInfo) string {
 		}
 	}
 
+	// schedule 1b: the same reader returns its LAST chunk together with io.EOF
+	// (n > 0 and err == io.EOF in one Read, as the io.Reader contract allows)
+	if len(c.Doc) > 0 {
+		rd2 := &model.Recorder{Limit: lim}
+		ro2 := guard(func() error {
+			_, err := cd.ParseReader(&chunkReader{chunks: cloneChunks(chunks), eofWithData: true}, rd2)
+			return err
+		})
+		if ro2.Class() != wo.Class() {
+			return fmt.Sprintf("%s: whole-buffer Parse ends with %v but ParseReader over chunks %v, the last one returned together with io.EOF, ends with %v (doc %q / %x)", c.Format, wo, c.Cuts, ro2, trunc(c.Doc), trunc(c.Doc))
+		}
+		if wo.Class() == "accept" {
+			if i, ok := evsEqual(whole.Evs, rd2.Evs); !ok {
+				return fmt.Sprintf("%s: event #%d differs between whole-buffer Parse (%s) and ParseReader over chunks %v with data+EOF (%s) (doc %q / %x)", c.Format, i, evAt(whole.Evs, i), c.Cuts, evAt(rd2.Evs, i), trunc(c.Doc), trunc(c.Doc))
+			}
+		}
+	}
+
 	// schedule 2: direct Write sequence with optional empty writes; no end of
 	// input is signalled, so the events must be a prefix of the whole-buffer ones
 	if wo.Class() == "accept" {
@@ -161,7 +179,7 @@ func drawC02Doc(t *rapid.T, format string) (Doc, string) {
 func init() {
 	register(&Property{
 		ID:   "C02",
-		Rule: "documents: library-encoder output of gen.Stream, foreign documents of the reference encoders (non-minimal CBOR, typed UBJSON, JSON with escapes/whitespace), concatenated container streams, byte mutations of valid documents (verdict only) x chunkings (single cut, every byte, cuts aimed into token spans, random subsets) x {Parse, ParseReader(chunk reader), Write sequence with empty writes}; oracle = the library on the unsplit input; non-trivial = a cut strictly inside a multi-byte token (measured from token spans) or an empty write between chunks; the quick tier also enumerates every single cut and the every-byte schedule of a fixed document set, the thorough tier all 2^(n-1) cut subsets of 21 documents of at most 13 bytes; distinct by (doc, cuts) hash",
+		Rule: "documents: library-encoder output of gen.Stream, foreign documents of the reference encoders (non-minimal CBOR, typed UBJSON, JSON with escapes/whitespace), concatenated container streams, byte mutations of valid documents (verdict only) x chunkings (single cut, every byte, cuts aimed into token spans, random subsets) x {Parse, ParseReader(chunk reader; also with the last chunk returned together with io.EOF), Write sequence with empty writes}; oracle = the library on the unsplit input; non-trivial = a cut strictly inside a multi-byte token (measured from token spans) or an empty write between chunks; the quick tier also enumerates every single cut and the every-byte schedule of a fixed document set, the thorough tier all 2^(n-1) cut subsets of 21 documents of at most 13 bytes; distinct by (doc, cuts) hash",
 		New:  func() any { return &C02Case{} },
 		Draw: func(t *rapid.T) any {
 			c := &C02Case{Format: rapid.SampledFrom(formatNames).Draw(t, "format")}
